@@ -114,12 +114,13 @@ func (o *poolObjs) hash() uint64 {
 
 // privObjs are the long-lived objects one task owns.
 type privObjs struct {
-	bufs   [][]byte
-	bufGen []int // bumped every time the task hands the buffer to the library again
-	ints   []*big.Int
-	rats   []*big.Rat
-	floats []*big.Float
-	recv   []D
+	bufs    [][]byte
+	bufGen  []int  // bumped every time the task hands the buffer to the library again
+	fromLib []bool // the buffer in this slot is a slice the library returned (recycled by the caller)
+	ints    []*big.Int
+	rats    []*big.Rat
+	floats  []*big.Float
+	recv    []D
 }
 
 func buildBuf(s BufSpec) []byte {
@@ -144,6 +145,7 @@ func buildPriv(p *PrivSpec) *privObjs {
 	for _, s := range p.Bufs {
 		o.bufs = append(o.bufs, buildBuf(s))
 		o.bufGen = append(o.bufGen, 0)
+		o.fromLib = append(o.fromLib, false)
 	}
 	for _, s := range p.Ints {
 		o.ints = append(o.ints, parseBigInt(s))
@@ -226,6 +228,9 @@ func (x *Ctx) buf(slot int64) []byte {
 	x.priv.bufGen[slot]++
 	b := x.priv.bufs[slot]
 	x.noteWrite(b)
+	if x.priv.fromLib[slot] {
+		x.ep.noteClientWrite()
+	}
 	return b
 }
 
